@@ -21,7 +21,7 @@ import (
 func TestC10(t *testing.T) {
 	rec := ev.Get("C10")
 	rec.Rule("per case a synctest bubble (in a third of the cases after two earlier connections of the same process whose NewConn timed out while blocked): hello delivery plan (already buffered, or k chunks arriving at drawn virtual times), context kind (WithCancel / WithTimeout / WithDeadline / cancelled parent), cancellation slot relative to the hello's completion (while blocked, exactly at completion, immediately after NewConn returned, return+epsilon, expiry after return, never), GOMAXPROCS in {1,2,4,8,16}, optional caller deadline on the transport; in the 'while blocked' slot the peer may not be reading, so that a write without a deadline would block forever. After the return the case cancels, calls synctest.Wait() so the watcher goroutine has certainly run, then inspects the transport log and performs I/O, in half of the cases including a HelloRetryRequest round whose retried hello arrives a virtual second later. distinct = (plan, kind, slot, GOMAXPROCS); non-trivial = the context ends within the case")
-	rec.Mandatory("slot:blocked", "slot:after_return_now", "slot:after_return_eps", "slot:expire_after", "slot:never", "slot:at_completion", "buffered", "late", "gomaxprocs1", "gomaxprocs16", "hrr_after_context_end", "blocked_and_peer_not_reading", "after_timed_out_predecessors")
+	rec.Mandatory("slot:blocked", "slot:after_return_now", "slot:after_return_eps", "slot:expire_after", "slot:never", "slot:at_completion", "buffered", "late", "gomaxprocs1", "gomaxprocs16", "hrr_after_context_end", "blocked_and_peer_not_reading", "after_timed_out_predecessors", "sibling_newconn_blocked_on_same_context")
 	defer runtime.GOMAXPROCS(runtime.GOMAXPROCS(0))
 	rapid.Check(t, func(rt *rapid.T) {
 		sc := drawSealed(rt, false)
@@ -77,6 +77,7 @@ func TestC10(t *testing.T) {
 		// connections do not share anything: an earlier NewConn of the same process whose
 		// context ended while it was blocked (an ordinary handshake timeout) changes nothing
 		predecessor := rapid.IntRange(0, 2).Draw(rt, "predecessor_timed_out") == 0
+		sibling := rapid.IntRange(0, 2).Draw(rt, "sibling_newconn_on_same_context") == 0
 		// later I/O may include a HelloRetryRequest round: the retried hello is read and
 		// decrypted long after the context has ended
 		withHRR := rapid.Bool().Draw(rt, "with_hrr")
@@ -166,6 +167,12 @@ func TestC10(t *testing.T) {
 					}
 				}
 				defer cancel()
+				if sibling {
+					// a server-wide context: another client's NewConn runs under the very same context
+					// and is still waiting for its hello when this one returns
+					go func() { newConn(ctx, wire.New(nil, nil), echKeys(sc.Key)) }()
+					synctest.Wait()
+				}
 				c, err := newConn(ctx, tr, echKeys(sc.Key))
 				ret := time.Since(start)
 				tr.MarkReturned()
@@ -287,6 +294,9 @@ func TestC10(t *testing.T) {
 		}
 		if predecessor {
 			rec.Class("after_timed_out_predecessors")
+		}
+		if sibling {
+			rec.Class("sibling_newconn_blocked_on_same_context")
 		}
 		cl := []string{"slot:" + slot, "kind:" + kind, fmt.Sprintf("gomaxprocs%d", procs)}
 		if nchunks == 0 {
